@@ -12,8 +12,6 @@ the "pointers must point strictly backwards" rule and is *the* reason decoding t
 import HickoryVerif.Model.Name
 set_option linter.unusedVariables false
 
-set_option linter.unusedVariables false
-
 namespace HickoryVerif
 namespace Name
 
